@@ -81,11 +81,24 @@ fn two_step_tol(before: &v1::Function, all: &BTreeMap<u64, f64>) -> Tol {
 fn split_state(rng: &mut Rng, all: &BTreeMap<u64, f64>) -> (BTreeMap<u64, f64>, BTreeMap<u64, f64>) {
     let mut a = BTreeMap::new();
     let mut b = BTreeMap::new();
-    let mode = rng.below(4);
+    let mode = rng.below(6);
+    // sparse mode: only one to three ids go to the first part
+    let sparse: BTreeSet<u64> = {
+        let keys: Vec<u64> = all.keys().cloned().collect();
+        let mut s = BTreeSet::new();
+        if !keys.is_empty() {
+            for _ in 0..1 + rng.below(3) {
+                s.insert(*rng.pick(&keys));
+            }
+        }
+        s
+    };
     for (k, v) in all {
         let to_a = match mode {
             0 => true,
             1 => false,
+            4 => sparse.contains(k),
+            5 => !sparse.contains(k),
             _ => rng.bool(),
         };
         if to_a {
@@ -104,11 +117,12 @@ fn to_state(m: &BTreeMap<u64, f64>) -> v1::State {
 impl C03 {
     fn function_case(&self, rng: &mut Rng, mon: &mut Monitor) {
         let regime = if rng.chance(3, 4) { Regime::D } else { Regime::R };
-        let np = 1 + rng.usize_below(5);
-        let pool = id_pool(rng, np, true);
+        let long = rng.chance(1, 30);
+        let np = if long { 8 + rng.usize_below(40) } else { 1 + rng.usize_below(5) };
+        let pool = id_pool_lookup(rng, np);
         let mut cfg = FnCfg::new(pool.clone(), regime);
-        if rng.chance(1, 40) {
-            cfg.max_terms = 48;
+        if long {
+            cfg.max_terms = 100;
         }
         let f = gen_function(rng, &cfg);
         let vname = variant_name(&f);
